@@ -44,6 +44,7 @@ class Sched(object):
     self.on_switch = None
     self.thread_errors = []
     self.p_lock = None        # pre-emption probability at lock release
+    self.file_p = {}          # file-id -> pre-emption probability override
 
   # ---- configuration -------------------------------------------------------
   def trace_file(self, path, fid):
@@ -95,7 +96,7 @@ class Sched(object):
       if self.steps > self.STEP_CAP:
         self.finish('stepcap')
       fid = self.fids[frame.f_code.co_filename]
-      if self.ctx.ch.preempt(self.cur, fid, frame.f_lineno):
+      if self.ctx.ch.preempt(self.cur, fid, frame.f_lineno, self.file_p.get(fid)):
         self._preempt(fid, frame.f_lineno)
     return self._ltrace
 
@@ -189,6 +190,12 @@ class Sched(object):
     self.th[me].block = pred
     self.th[me].blocked_on = what
     self._reschedule(me)
+
+  def wake(self, name):
+    """Cut a thread's sleep short (reactor wakeUp from callFromThread)."""
+    t = self.th.get(name)
+    if t is not None and t.alive and t.wake is not None and name != self.cur:
+      t.wake = self.now
 
   def alive(self, name):
     t = self.th.get(name)
